@@ -489,6 +489,12 @@ def nodrop_rule(chk, w, roles, rid):
             continue
         seen.add(f.name)
         copies = {i.id for (g, i) in roles["append"] if g is f}
+        # a byte-wise copy loop counts as reached when its loop is entered (a zero-length copy appends nothing, like memcpy of 0 bytes)
+        for (g, i) in roles["append"]:
+            if g is f and getattr(i, "op", "") == "store-append":
+                for h, body in f.loops().items():
+                    if i.bb.id in body:
+                        copies.add(f.bmap[h].insts[0].id)
         p = rules.exists_path(f, f.blocks[0].insts[0], "exit", lambda x: x.id in copies, include_start=True)
         if p:
             chk.violation(rid, f.name, "drop", p[-1].loc(), "a path through %s returns without appending the message (%s): the message is lost after admission and after its sequence number was taken" % (f.name, rules.path_text(p)))
